@@ -1,137 +1,220 @@
 (* C31 -- nREPL interrupt stops the running eval and no other.
    Only statements; model Nrepl.v (same named assumptions as C30), proofs NreplProps.v.
 
-   The per-session `interrupted` flag is written by: the reader (interrupt op,
-   close_session), the SIGINT watchdog, the worker's reset after every dequeue
-   (store false), the evaluator's check (load; on true store false and return
-   Interrupted), and -- with fix-1 -- the worker's re-raise for a closed session.
+   The current code is variant VFix2 of the model.  Per session there is the
+   `interrupted` flag (polled and consumed by the evaluator's check) and, under
+   one mutex, the counter `pending` = requests enqueued and not yet finished.
+   Who writes the flag:
+     reader `interrupt` op / SIGINT watchdog : store true ONLY IF pending > 0   (one critical section)
+     reader close_session / disconnect       : closed := true, then store true (unconditional)
+     worker after dequeue                    : store true if `closed`          (no reset any more)
+     evaluator check                         : load; on true store false, return Interrupted
+     worker finish_request                   : pending -= 1; if pending == 0 store false   (one critical section)
 
    THE RACES, stated explicitly:
-   (R1, benign) a flag stored after the evaluator's last check of an eval is not
-       seen by that eval; `idle_interrupt_harmless` shows it is erased by the
-       next reset and can never cancel a later eval.
-   (R2, by design) a flag stored after a request was queued but BEFORE the
-       worker's reset for it is erased by that reset: `interrupt_before_reset_lost`.
-       The interrupt is acknowledged, the eval runs on.  Confirmed on the real
-       server; classified by the property's own second clause (the worker is
-       idle / has not started the eval when the interrupt is handled).
-   (R3, DEFECT in the code as found) the same window for `close`: the session is
-       removed, the queued/just-dequeued eval then starts with a cleared flag and
-       nothing can stop it any more: `close_stops_running_refuted_asis`.
-       fix-1 closes it: `close_stops_running`. *)
+   (R1, benign, inherent) an interrupt accepted after the evaluator's last check
+       of the running eval is not seen by that eval.  If nothing else is pending
+       the flag is cleared by finish_request (`idle_interrupt_harmless`,
+       late_interrupt example); if another request of the session is already
+       queued, the flag stays up and stops THAT request at its first check
+       (`interrupt_reaches_queued_eval`): an accepted interrupt always stops at
+       most one eval -- the first of the session to run a check -- or none if the
+       session goes idle first.
+   (R2, FIXED by fix-2) in the old protocol the worker cleared the flag on every
+       dequeue, so an interrupt handled after its eval was queued but before the
+       worker's reset (e.g. while a new session's worker was still building its
+       Env) was acknowledged and erased: `interrupt_lost_old_protocol_refuted`.
+   (R3, FIXED by fix-1) the same window for `close`: `close_stops_running_refuted_asis`. *)
 From Coq Require Import List Arith Bool.
 Import ListNotations.
 From Garden Require Import Nrepl NreplProps.
 
 (* The flag is true at some point (stored by anyone), and from there up to a
-   state where worker k's evaluator is running request r the worker has done
-   neither its reset nor a check (i.e. the store landed between the
-   reset-on-dequeue and this check of the same eval).  Then this check ends the
-   eval with Interrupted and consumes the flag. *)
-Theorem interrupt_running : forall fx st tr st' k r,
-  flag_of st k = Some true -> exec fx st tr = Some st' ->
-  (forall l, In l tr -> l <> LWorker k WAReset /\ l <> LWorker k WACheck) ->
+   state where worker k's evaluator is running request r the worker has done no
+   check, no finish_request and (old protocol) no reset.  Then this check ends
+   the eval with Interrupted and consumes the flag.  All code variants. *)
+Theorem interrupt_running : forall pv st tr st' k r,
+  flag_of st k = Some true -> exec pv st tr = Some st' ->
+  (forall l, In l tr -> l <> LWorker k WAReset /\ l <> LWorker k WACheck /\ l <> LWorker k WADone) ->
   wpc_of st' k = Some (WRun r) ->
-  exists st'', step fx st' (LWorker k WACheck) = Some st'' /\
+  exists st'', step pv st' (LWorker k WACheck) = Some st'' /\
                wpc_of st'' k = Some (WStop r RInterrupted) /\ flag_of st'' k = Some false.
 Proof. exact interrupt_running_lemma. Qed.
 Print Assumptions interrupt_running.
 
 (* ... and the `done` of an eval stopped that way has status `interrupted`,
    whatever happens afterwards. *)
-Theorem interrupted_eval_reports_interrupted : forall fx st tr st' k r s', reachable fx st ->
+Theorem interrupted_eval_reports_interrupted : forall pv st tr st' k r s', reachable pv st ->
   wpc_of st k = Some (WStop r RInterrupted) ->
-  exec fx st tr = Some st' -> In (MDone r s') (st_sent st') -> s' = StInterrupted.
+  exec pv st tr = Some st' -> In (MDone r s') (st_sent st') -> s' = StInterrupted.
 Proof. exact interrupted_status_lemma. Qed.
 Print Assumptions interrupted_eval_reports_interrupted.
 
-(* Worker k is idle, has just dequeued, or is past its evaluator's return
-   (pre_reset) -- whatever is stored into its flag now, e.g. by an interrupt
-   handled while the session is idle or by a late interrupt (R1):
-   (i) before the worker can run a flag check again it executes its reset, and
-   (ii) after a reset, as long as no NEW store of `true` happens, every check of
-        the eval sees `false` and the eval continues. *)
+(* Current code.  (1) An `interrupt` handled while a request of the session is
+   queued (the worker may not even have started) or in the worker's hands is
+   ACCEPTED: the flag is raised and it cannot be ignored.
+   (2) From any state with the flag up: as long as no check of session k consumed
+   it and no finish_request left the session idle (`holds_flag`: a finish_request
+   of k only with pending >= 2), the flag is still up -- in particular it survives
+   the worker's dequeue -- so the next check of whichever eval of the session is
+   then running ends that eval with Interrupted.
+   (3) finish_request cannot clear it while another request is still queued. *)
+Theorem interrupt_reaches_queued_eval :
+  (forall st r k s, reachable VFix2 st ->
+     st_rd st = RGot r (OInterrupt k) -> open_sess st k = Some s ->
+     (s_queue s <> [] \/ busy (s_w s) = 1) ->
+     step VFix2 st (LReader RAIgnore) = None /\
+     exists st', step VFix2 st (LReader RAFlag) = Some st' /\ flag_of st' k = Some true /\
+                 st_rd st' = RSend r StDone) /\
+  (forall pv st tr st' k r,
+     flag_of st k = Some true -> exec pv st tr = Some st' -> holds_flag pv k st tr = true ->
+     wpc_of st' k = Some (WRun r) ->
+     exists st'', step pv st' (LWorker k WACheck) = Some st'' /\
+                  wpc_of st'' k = Some (WStop r RInterrupted) /\ flag_of st'' k = Some false) /\
+  (forall st k s, reachable VFix2 st -> nth_error (st_sess st) k = Some s ->
+     s_w s = WFinishing -> s_queue s <> [] -> 2 <= s_pending s).
+Proof. split; [exact interrupt_accepted_lemma | split; [exact interrupt_reaches_lemma | exact done_with_queue_keeps]]. Qed.
+Print Assumptions interrupt_reaches_queued_eval.
+
+(* Current code.  An `interrupt` handled while the session is idle (nothing
+   queued, worker idle) stores NOTHING: raising the flag is not possible, the
+   sessions are unchanged, the request is answered `done`. *)
+Theorem idle_interrupt_is_ignored : forall st r k s, reachable VFix2 st ->
+  st_rd st = RGot r (OInterrupt k) -> open_sess st k = Some s ->
+  s_queue s = [] -> busy (s_w s) = 0 ->
+  step VFix2 st (LReader RAFlag) = None /\
+  (s_closed s = false -> s_flag s = false) /\
+  exists st', step VFix2 st (LReader RAIgnore) = Some st' /\ st_sess st' = st_sess st /\
+              st_rd st' = RSend r StDone.
+Proof. exact idle_interrupt_ignored_lemma. Qed.
+Print Assumptions idle_interrupt_is_ignored.
+
+(* Current code.  (i) In EVERY reachable state an idle session that has not been
+   closed has its flag down -- whatever was stored earlier: an ignored idle
+   interrupt, or a late interrupt (R1) that finish_request cleared.
+   (ii) (all variants) with the flag down and no new store of `true`
+   (`no_flagset`; an ignored interrupt is not a store), every check of the eval
+   passes and the eval continues.  So an interrupt handled while the session is
+   idle cannot cancel the session's next eval. *)
 Theorem idle_interrupt_harmless :
-  (forall fx tr st st' k pc r, wpc_of st k = Some pc -> pre_reset pc = true ->
-     exec fx st tr = Some st' -> wpc_of st' k = Some (WRun r) -> In (LWorker k WAReset) tr) /\
-  (forall fx st k st1 tr st2 r,
-     step fx st (LWorker k WAReset) = Some st1 -> exec fx st1 tr = Some st2 ->
-     no_flagset fx k st1 tr = true -> wpc_of st2 k = Some (WRun r) ->
-     exists st3, step fx st2 (LWorker k WACheck) = Some st3 /\ wpc_of st3 k = Some (WRun r)).
-Proof. split; [exact check_needs_reset | exact idle_interrupt_harmless_lemma]. Qed.
+  (forall st k s, reachable VFix2 st -> nth_error (st_sess st) k = Some s ->
+     s_queue s = [] -> busy (s_w s) = 0 -> s_closed s = false -> s_flag s = false) /\
+  (forall pv st tr st' k r, flag_of st k = Some false ->
+     exec pv st tr = Some st' -> no_flagset pv k st tr = true -> wpc_of st' k = Some (WRun r) ->
+     exists st'', step pv st' (LWorker k WACheck) = Some st'' /\ wpc_of st'' k = Some (WRun r)).
+Proof. split; [exact idle_flag_down | exact check_passes_lemma]. Qed.
 Print Assumptions idle_interrupt_harmless.
 
-(* The flag is cleared ONLY by the worker's own reset and check, and raised
-   ONLY by the labels `is_flagset` names. *)
+(* The flag is cleared ONLY by the worker's own check, finish_request and (old
+   protocol) reset, and raised ONLY by the labels `is_flagset` names. *)
 Theorem flag_write_discipline :
-  (forall fx st l st' k, step fx st l = Some st' -> flag_of st k = Some true ->
-     l <> LWorker k WAReset -> l <> LWorker k WACheck -> flag_of st' k = Some true) /\
-  (forall fx st l st' k, step fx st l = Some st' -> flag_of st k = Some false ->
+  (forall pv st l st' k, step pv st l = Some st' -> flag_of st k = Some true ->
+     l <> LWorker k WAReset -> l <> LWorker k WACheck -> l <> LWorker k WADone -> flag_of st' k = Some true) /\
+  (forall pv st l st' k, step pv st l = Some st' -> flag_of st k = Some false ->
      is_flagset k st l = false -> flag_of st' k = Some false).
 Proof. split; [exact flag_stays_true | exact flag_stays_false]. Qed.
 Print Assumptions flag_write_discipline.
 
-(* R2, exhibited (both code variants): eval queued, interrupt handled and
-   acknowledged, worker then dequeues and resets: the eval runs with flag false. *)
-Example interrupt_before_reset_lost : forall fx,
-  match exec fx init (lost_interrupt_trace fx) with
-  | Some st => wpc_of st 0 = Some (WRun 1) /\ flag_of st 0 = Some false /\ In (MDone 2 StDone) (st_sent st)
+(* R2 on the OLD protocol (code as found and code with fix-1 only): eval queued,
+   interrupt handled and acknowledged, worker then dequeues and resets: the eval
+   runs with flag false and its check passes. *)
+Theorem interrupt_lost_old_protocol_refuted : forall pv, counts pv = false ->
+  match exec pv init (early_interrupt_trace pv) with
+  | Some st => wpc_of st 0 = Some (WRun 1) /\ flag_of st 0 = Some false /\
+               In (MDone 2 StDone) (st_sent st) /\
+               match step pv st (LWorker 0 WACheck) with
+               | Some st' => wpc_of st' 0 = Some (WRun 1)
+               | None => False
+               end
   | None => False
   end.
-Proof. exact interrupt_before_reset_is_lost. Qed.
-Print Assumptions interrupt_before_reset_lost.
+Proof. exact interrupt_lost_old_protocol. Qed.
+Print Assumptions interrupt_lost_old_protocol_refuted.
 
-(* Code with fix-1.  Once close_session has stored `closed` and the interrupt
+(* the same client schedule on the current code stops the eval at its first check *)
+Example early_interrupt_stops_eval :
+  match exec VFix2 init (early_interrupt_trace VFix2) with
+  | Some st => wpc_of st 0 = Some (WRun 1) /\ flag_of st 0 = Some true /\
+               match step VFix2 st (LWorker 0 WACheck) with
+               | Some st' => wpc_of st' 0 = Some (WStop 1 RInterrupted)
+               | None => False
+               end
+  | None => False
+  end.
+Proof. exact early_interrupt_stops_eval_fix2. Qed.
+Print Assumptions early_interrupt_stops_eval.
+
+Example interrupt_accept_hypotheses_satisfiable :
+  exists st s, reachable VFix2 st /\ st_rd st = RGot 2 (OInterrupt 0) /\ open_sess st 0 = Some s /\
+    s_queue s <> [] /\ s_w s = WIdle.
+Proof. exact accept_hyp_satisfiable. Qed.
+Print Assumptions interrupt_accept_hypotheses_satisfiable.
+
+(* idle interrupt then eval; late interrupt (R1) then eval: both evals start with the flag down *)
+Example idle_and_late_interrupt_examples :
+  (match exec VFix2 init idle_interrupt_trace with
+   | Some st => wpc_of st 0 = Some (WRun 2) /\ flag_of st 0 = Some false
+   | None => False
+   end /\
+   exec VFix2 init [ LRecv OClone; LReader RANew; LReader RASend; LRecv (OInterrupt 0); LReader RAFlag ] = None) /\
+  match exec VFix2 init late_interrupt_trace with
+  | Some st => wpc_of st 0 = Some (WRun 3) /\ flag_of st 0 = Some false /\ In (MDone 1 StDone) (st_sent st)
+  | None => False
+  end.
+Proof. split; [exact idle_interrupt_demo | exact late_interrupt_demo]. Qed.
+Print Assumptions idle_and_late_interrupt_examples.
+
+(* Current code.  Once close_session has stored `closed` and the interrupt
    flag for session k (s_closed, and the reader is past the flag store), in EVERY
    reachable state an eval of session k that is running has the flag raised, so
    its next check stops it -- this covers the eval running at close time, an eval
    that was only queued or just dequeued at close time, and every request still
    queued behind it. *)
-Theorem close_stops_running : forall st k s r, reachable true st ->
+Theorem close_stops_running : forall st k s r, reachable VFix2 st ->
   nth_error (st_sess st) k = Some s -> s_closed s = true -> rd_mid_close k (st_rd st) = false ->
   s_w s = WRun r ->
-  exists st', step true st (LWorker k WACheck) = Some st' /\ wpc_of st' k = Some (WStop r RInterrupted).
+  exists st', step VFix2 st (LWorker k WACheck) = Some st' /\ wpc_of st' k = Some (WStop r RInterrupted).
 Proof. exact close_stops_running_lemma. Qed.
 Print Assumptions close_stops_running.
 
 (* the hypotheses are what close_session establishes, and they are reachable *)
 Theorem close_establishes_hypotheses : forall st st1 st2 r k, st_rd st = RGot r (OClose k) ->
-  step true st (LReader RAClosed) = Some st1 -> step true st1 (LReader RAFlag) = Some st2 ->
+  step VFix2 st (LReader RAClosed) = Some st1 -> step VFix2 st1 (LReader RAFlag) = Some st2 ->
   exists s, nth_error (st_sess st2) k = Some s /\ s_closed s = true /\ s_flag s = true /\
             rd_mid_close k (st_rd st2) = false.
 Proof. exact close_sets_both. Qed.
 Print Assumptions close_establishes_hypotheses.
 
 Example close_hypotheses_satisfiable :
-  exists st s, reachable true st /\ nth_error (st_sess st) 0 = Some s /\ s_closed s = true /\
+  exists st s, reachable VFix2 st /\ nth_error (st_sess st) 0 = Some s /\ s_closed s = true /\
     rd_mid_close 0 (st_rd st) = false /\ s_w s = WRun 1.
 Proof. exact close_hyp_satisfiable. Qed.
 Print Assumptions close_hypotheses_satisfiable.
 
-(* R3: the code AS FOUND (fx = false) violates close_stops_running.  Interleaving:
+(* R3: the code AS FOUND violates close_stops_running.  Interleaving:
    clone; eval queued; close handled (flag stored, session removed, acknowledged
    `session-closed`); worker dequeues, resets the flag, starts the eval: running,
    flag false, checks pass, session unreachable. *)
 Theorem close_stops_running_refuted_asis :
-  exists st, exec false init close_race_trace = Some st /\
+  exists st, exec VAsFound init close_race_trace = Some st /\
     In (MDone 2 StSessionClosed) (st_sent st) /\
     open_sess st 0 = None /\
     wpc_of st 0 = Some (WRun 1) /\ flag_of st 0 = Some false /\
-    (forall st', step false st (LWorker 0 WACheck) = Some st' -> wpc_of st' 0 = Some (WRun 1)).
+    (forall st', step VAsFound st (LWorker 0 WACheck) = Some st' -> wpc_of st' 0 = Some (WRun 1)).
 Proof. exact NreplProps.close_stops_running_refuted_asis. Qed.
 Print Assumptions close_stops_running_refuted_asis.
 
-(* the same schedule on the fixed code ends the eval at its first check *)
+(* the same schedule on the current code ends the eval at its first check *)
 Example close_race_fixed_stops :
-  exists st, exec true init close_race_trace_fixed = Some st /\ wpc_of st 0 = Some (WStop 1 RInterrupted).
+  exists st, exec VFix2 init close_race_trace_fixed = Some st /\ wpc_of st 0 = Some (WStop 1 RInterrupted).
 Proof. exact close_race_fixed. Qed.
 Print Assumptions close_race_fixed_stops.
 
-(* non-vacuity of interrupt_running: a concrete interrupted eval, both variants *)
-Example interrupt_running_example : forall fx,
-  match exec fx init (if fx then interrupt_trace else filter (fun l => match l with LWorker _ WALoadClosed => false | _ => true end) interrupt_trace) with
+(* non-vacuity of interrupt_running: a concrete interrupted eval, all variants *)
+Example interrupt_running_example : forall pv,
+  match exec pv init (interrupt_trace pv) with
   | Some st => flag_of st 0 = Some true /\ wpc_of st 0 = Some (WRun 1) /\
-               match step fx st (LWorker 0 WACheck) with
+               match step pv st (LWorker 0 WACheck) with
                | Some st' => wpc_of st' 0 = Some (WStop 1 RInterrupted)
                | None => False
                end
